@@ -106,7 +106,11 @@ class InsecureHomeKitProtocol(asyncio.Protocol):
         self.transport = transport
 
     def connection_lost(self, exception: Exception) -> None:
-        self.connection._connection_lost(exception)
+        if self.connection.protocol is self or self.connection.protocol is None:
+            # Only tell the connection when we are its current protocol: the
+            # late loss of an abandoned connection must not tear down the
+            # connection that replaced it.
+            self.connection._connection_lost(exception)
         self._cancel_pending_requests()
 
     def _handle_timeout(self, fut: asyncio.Future[Any]) -> None:
